@@ -5,7 +5,8 @@
 From Coq Require Import ZArith QArith Qcanon List Bool.
 From DV Require Import Base.Field Base.LinAlg Base.QcInst Model.Enums Model.Homog Model.Rotation
   Gen.Euler Gen.Quat Gen.LinInv Gen.TState Model.TransformState Model.TransformStateRun Model.TransformStateEx Model.TransformCfg
-  Proofs.C07Linear Proofs.C07Sequential Proofs.C07Shared Proofs.C07Refuted Proofs.C09Skeleton.
+  Model.VelocityAffine Base.FieldFacts
+  Proofs.C07Linear Proofs.C07Sequential Proofs.C07Shared Proofs.C07Velocity Proofs.C07Refuted Proofs.C09Skeleton.
 Import ListNotations.
 Local Open Scope fld_scope.
 
@@ -100,6 +101,32 @@ Theorem C07_inverse_stays_inverse :
                  held P G C p0 callP (edits p0 fillP s1 es) n = Some (p, g, negb sg).
 Proof. exact (fun P G C p0 fillP callP => inverse_stays_inverse p0 fillP callP gen_cfg gen_cfg_all). Qed.
 Print Assumptions C07_inverse_stays_inverse.
+
+(* 8b. ... the same for link in {False, True} when the transform holds a fixed tensor (Parameter + link
+       raises, see 9), and for link=False when the parameters come from a callable (both evaluate the
+       same callable on the same condition) *)
+Theorem C07_inverse_stays_inverse_link_and_callable :
+  forall (P G C : Type) (p0 : P) (fillP : P -> P -> P) (callP : nat -> option C -> P)
+         (s : state P G C) o link upd n s1 ob (es : list (nat * P)),
+  get_obj P G C s o = Some ob ->
+  ((exists r ip, get_params P G C s ob = Some (VTen r ip)) \/
+   (link = false /\ exists f, get_params P G C s ob = Some (VFun f))) ->
+  inverse1 P G C p0 gen_cfg s o link upd = Ok n s1 ->
+  exists p g sg, held P G C p0 callP (edits p0 fillP s1 es) o = Some (p, g, sg) /\
+                 held P G C p0 callP (edits p0 fillP s1 es) n = Some (p, g, negb sg).
+Proof. exact (fun P G C p0 fillP callP => inverse_stays_inverse_general p0 fillP callP gen_cfg gen_cfg_all). Qed.
+Print Assumptions C07_inverse_stays_inverse_link_and_callable.
+
+(* 8c. Velocity-field models on an affine invariant generator v(x) = h x (each axis of a diagonal
+       generator): for EVERY number k of scaling-and-squaring steps the inverse composed with the forward
+       map is x -> (1 - h^2/4^k)^(2^k) x exactly -- the identity up to a term of second order in h.
+       (exp_k k s h = (1 + s h / 2^k)^(2^k) is the multiplier the code computes: compared with
+       StationaryVelocityFieldTransform on every run, agreement ~1e-9.) *)
+Theorem C07_affine_generator_second_order :
+  forall (K : fld), is_field K -> char0 K -> forall (k : nat) (h : K),
+  exp_k k (- (1)) h * exp_k k 1 h = sq_iter k (1 - h * h / (pow2 k * pow2 k)).
+Proof. exact round_trip_second_order. Qed.
+Print Assumptions C07_affine_generator_second_order.
 
 (* 9. Full statement "for link in {False, True} and every parameter kind" is FALSE of the code:
       inverse(link=True) (hence .inv) raises TypeError whenever the parameters are an nn.Parameter *)
